@@ -9,7 +9,6 @@ use crate::{
     collections::handle_table::Handle,
     compiled_program::CaoCompiledProgram,
     procedures::ExecutionErrorPayload,
-    traits::MAX_STR_LEN,
     value::Value,
     VariableId,
 };
@@ -25,8 +24,9 @@ use super::{
 
 pub fn read_str<'a>(instr_ptr: &mut usize, program: &'a [u8]) -> Option<&'a str> {
     let p = *instr_ptr;
-    let limit = program.len().min(p + MAX_STR_LEN);
-    let (len, s): (_, &'a str) = decode_str(&program[p..limit])?;
+    // the string is length-prefixed, no need to cap the window (a cap made every literal longer
+    // than MAX_STR_LEN - 4 bytes unreadable at run time)
+    let (len, s): (_, &'a str) = decode_str(program.get(p..)?)?;
     *instr_ptr += len;
     Some(s)
 }
